@@ -149,6 +149,8 @@ func makeCfg(prof string, r *rng) WorldCfg {
 			c.Dev.Types[r.intn(len(c.Dev.Types))].Flags |= simvk.PropDeviceCoherent
 		}
 		return c
+	case "core", "core2", "core3":
+		return coreCfg(prof, r)
 	}
 	return baseCfg(r, 3, 6, typePalette[:7])
 }
@@ -173,6 +175,12 @@ func newGenerator(prof string, r *rng, maxOps int) *generator {
 		g.weights = []wop{{"bad", 45}, {"alloc", 15}, {"palloc", 8}, {"free", 12}, {"mkpool", 4}, {"map", 3}, {"unmap", 3}, {"flush", 4}, {"defrag", 4}, {"stats", 1}}
 	case "teardown":
 		g.weights = []wop{{"alloc", 30}, {"palloc", 15}, {"free", 20}, {"mkpool", 6}, {"rmpool", 4}, {"cbuf", 5}, {"dres", 4}, {"map", 4}, {"allocm", 4}, {"destroy", 2}, {"rmpoolbusy", 2}}
+	case "core":
+		g.weights = []wop{{"alloc", 24}, {"lalloc", 12}, {"allocm", 6}, {"palloct", 14}, {"allocn", 5}, {"free", 22}, {"freen", 3},
+			{"map", 6}, {"unmap", 6}, {"rw", 3}, {"mkpoolt", 4}, {"rmpool", 2}, {"stats", 1}, {"fault", 3}}
+	case "core2":
+		g.weights = []wop{{"alloc", 18}, {"lalloc", 10}, {"allocm", 8}, {"palloc", 18}, {"allocn", 5}, {"free", 22}, {"freen", 3},
+			{"map", 6}, {"unmap", 6}, {"rw", 3}, {"flush", 5}, {"inval", 3}, {"mkpool", 5}, {"rmpool", 2}, {"stats", 2}, {"fault", 3}}
 	default:
 		g.prof = "basic"
 		g.weights = []wop{{"alloc", 40}, {"free", 30}}
@@ -982,6 +990,8 @@ func (g *generator) genNamed(w *World, name string) (Op, bool) {
 		if g.activeDefrag(w) < 0 {
 			return mkOp("destroy"), true
 		}
+	case "mkpoolt", "palloct", "fault":
+		return g.genCore(w, name)
 	}
 	return Op{}, false
 }
@@ -1046,6 +1056,68 @@ func (g *generator) teardown(w *World) (Op, bool) {
 	if g.finStage == 2 {
 		g.finStage = 3
 		return mkOp("destroy"), true
+	}
+	return Op{}, false
+}
+
+// ---- profiles for the whole-allocator model (coq/theories/Vam*.v): only ops and configurations the model covers ----
+
+// coreCfg: core = no budget extension; core2 = API 1.1/1.2 with the budget extension most of the time.
+func coreCfg(prof string, r *rng) WorldCfg {
+	c := baseCfg(r, 3, 5, typePalette[:6])
+	if r.chance(35) {
+		c.Dev.MaxAllocCount = r.pick(3, 5, 8, 12, 20)
+	}
+	if r.chance(40) {
+		c.HeapLimits = make([]int, len(c.Dev.Heaps))
+		for i, h := range c.Dev.Heaps {
+			block := h.Size / 8
+			if r.intn(4) != 0 {
+				c.HeapLimits[i] = r.rangeIncl(1, 6)*block + r.pick(-1, 0, 1)
+			}
+		}
+	}
+	if r.chance(20) {
+		c.LargeBlock = r.pick(64, 256) * kib // only matters for heaps above 1 GiB (none here): must stay unobservable
+	}
+	if prof != "core" && r.chance(75) {
+		c.Dev.API = r.pick(11, 12)
+		c.Dev.BudgetExt = r.chance(85)
+		for _, h := range c.Dev.Heaps {
+			c.Dev.HeapBudget = append(c.Dev.HeapBudget, h.Size*r.pick(3, 5, 8, 10)/10)
+			c.Dev.HeapOtherUsage = append(c.Dev.HeapOtherUsage, h.Size*r.pick(0, 0, 1, 2)/10)
+		}
+	}
+	return c
+}
+
+func (g *generator) genCore(w *World, name string) (Op, bool) {
+	r := g.r
+	switch name {
+	case "mkpoolt": // TLSF pools only
+		op, ok := g.genMkPool(w)
+		if ok {
+			op.Args[2] &^= pfLinear
+		}
+		return op, ok
+	case "palloct":
+		ps := g.livePools(w)
+		if len(ps) == 0 {
+			return g.genCore(w, "mkpoolt")
+		}
+		return g.genAlloc(w, g.pickOf(ps), 0)
+	case "fault":
+		if w.pendingFault != nil {
+			return Op{}, false
+		}
+		kind := r.pick(-1, -1, -1, 0, 2)
+		k := r.rangeIncl(1, 3)
+		result := r.pick(0, 0, 0, simvk.ResOutOfDeviceMemory, simvk.ResOutOfHostMemory, simvk.ResTooManyObjects, simvk.ResMemoryMapFailed)
+		sticky := 0
+		if r.chance(30) {
+			sticky = 1
+		}
+		return mkOp("fault", kind, k, result, sticky), true
 	}
 	return Op{}, false
 }
